@@ -6,7 +6,7 @@ import itertools
 
 from ..kernel import Chooser
 from ..lazy import seq
-from ..seqcheck import explore_task
+from ..seqcheck import explore_task, nest_tasks
 from ..spec import BudgetRef, attempts, deadline_s, delivered_reason, terminal_reason
 from ..tracelib import CANCEL_LABELS, split_calls
 
@@ -91,6 +91,8 @@ def tasks(tier):
                    sleeper=None, strat_menu=[1, 9])
         for e in Q4:
             out.append({"family": "permit-plain", "cfg": cfg, "entry": e, "bound": bound + 1})
+    out += nest_tasks(Q4, "permit-reentrant", ["ok", "x:T", "r:T", "x:U"], handler="call",
+                      per_class={"T": 1})
     return out
 
 
